@@ -276,10 +276,44 @@ pub fn gen_program(rng: &mut Rng, idx: usize) -> Program {
         desc.push("import equals".into());
       }
       14 => {
-        let l = plain_lit(rng);
-        body.push_str(&format!("declare module {} {{ export const x: number; }}\n", l.written));
-        expected.push(Expect { cat: "static:maybeTsModuleAugmentation".into(), text: l.value.clone(), written: l.written.clone() });
+        // ambient module declarations: plain names and relative wildcards are (possible) augmentations,
+        // other wildcard patterns are not dependencies; whatever the name, the body is searched
+        let l = if rng.chance(1, 2) {
+          plain_lit(rng)
+        } else {
+          let v = *rng.pick(&["*.css", "./*.svg", "/abs/*", "../x/*.d", "pre*post", "*"]);
+          Lit { value: v.to_string(), written: format!("\"{}\"", v) }
+        };
+        let mut inner = String::from("export const x: number; ");
+        for k in 0..rng.below(3) {
+          let d = plain_lit(rng);
+          let (text, cat) = match rng.below(6) {
+            0 => (format!("import type {{ T{}_{} }} from {}; ", i, k, d.written), "static:importType"),
+            1 => (format!("import {{ a{}_{} }} from {}; ", i, k, d.written), "static:import"),
+            2 => (format!("export * from {}; ", d.written), "static:export"),
+            3 => (format!("export {{ b{}_{} }} from {}; ", i, k, d.written), "static:export"),
+            4 => (format!("type A{}_{} = import({}).T; ", i, k, d.written), "static:importType"),
+            _ => (format!("import r{}_{} = require({}); ", i, k, d.written), "static:importEquals"),
+          };
+          inner.push_str(&text);
+          expected.push(Expect { cat: cat.into(), text: d.value.clone(), written: d.written.clone() });
+        }
+        body.push_str(&format!("declare module {} {{ {}}}\n", l.written, inner));
+        let v = &l.value;
+        if !v.contains('*') || v.starts_with("./") || v.starts_with("../") || v.starts_with('/') {
+          expected.push(Expect { cat: "static:maybeTsModuleAugmentation".into(), text: l.value.clone(), written: l.written.clone() });
+        }
         desc.push("declare module".into());
+        // the same constructs inside a namespace / global augmentation
+        if rng.chance(1, 3) {
+          let d = plain_lit(rng);
+          if rng.chance(1, 2) {
+            body.push_str(&format!("namespace NS{} {{ export type Q = import({}).T; }}\n", i, d.written));
+          } else {
+            body.push_str(&format!("declare global {{ type G{} = import({}).T; }}\n", i, d.written));
+          }
+          expected.push(Expect { cat: "static:importType".into(), text: d.value.clone(), written: d.written.clone() });
+        }
       }
       _ => {
         body.push_str(&format!("export const k{} = {};\n", i, i));
